@@ -117,8 +117,7 @@ def C02(tier, seed):
                 f"every sequence over {{edit, undo, redo}} of length {n} (prefixes cover the shorter ones) on the real "
                 f"ActionHistory / Tracks.undo / Tracks.redo, abstract exactly-invertible edits with symbolic payloads")]
     runs += R.step_runs("C02", tier, R.USER)
-    if tier != "quick":
-        runs += R.seg_runs("C02", tier, [("paint", 2, (2, 1, 2), {})])
+    runs += R.seg_runs("C02", tier, [("paint", 2 if tier == "quick" else 3, (2, 1, 2), {})])
     return run_property("C02", tier, runs, explanation=R.EXPL, seed=seed, assumptions=R.STEP_ASSUME + [
         "lemma (a): ActionHistory calls nothing but inverse(); behaviour on free generators transfers to every "
         "exactly-invertible action (C01); lemma (b): one successful top-level user action = exactly one history "
@@ -390,6 +389,10 @@ def C08(tier, seed):
                  # a feature enabled BETWEEN an edit and its undo
                  ("paint", 2, G2, {"scale": "iso", "enable_mid": "ellipse_axis_radii"})]
         en = [(k, 2, G2, {"scale": "iso"}) for k in ("ellipse_axis_radii", "circularity", "perimeter")]
+        # switched off earlier, values stale (arbitrary), switched on again
+        en += [("area", 2, G2, {"stale_keys": ["area"], "was_disabled": True, "scale": "sym"}),
+               ("ellipse_axis_radii", 2, G2, {"all_rp": True, "stale_keys": ["ellipse_axis_radii"], "was_disabled": True,
+                                              "scale": "iso"})]
     else:
         specs = [("paint", 3, G2, a), ("paint", 2, G3, {"scale": "none", "all_rp": True}), ("paint", 2, G3D, a),
                  ("paint", 2, W3, b), ("paint", 2, (2, 1, 4), {"scale": "aniso"}),
@@ -398,6 +401,8 @@ def C08(tier, seed):
                   ("UserDeleteNode", 2, G2, {"scale": "iso", "enable_mid": "ellipse_axis_radii"}),
                   ("UserAddNode", 2, G2, {"scale": "iso", "enable_mid": "ellipse_axis_radii"})]
         en = [(k, 3, G3, {"scale": "iso"}) for k in ("ellipse_axis_radii", "circularity", "perimeter")]
+        en += [(k, 3, G2, {"all_rp": True, "stale_keys": [k], "was_disabled": True, "scale": "iso"})
+               for k in ("area", "pos", "ellipse_axis_radii", "circularity", "perimeter")]
     from harness import kernels
     from .core import Run
 
@@ -415,12 +420,14 @@ def C09(tier, seed):
         # paint on three frames: the repainted node can be an endpoint of a frame-skipping edge
         specs = [("paint", 3, G2, a), ("paint", 2, G3, a), ("UserAddEdge", 3, G3, a), ("UserDeleteNode", 3, G3, a),
                  ("UserSwapPredecessors", 3, G3, a), ("paint", 2, G2, {"enable_mid": "iou"})]
-        en = [("iou", 3, G3, {}), ("iou", 3, G3, {"iou": True, "stale_keys": ["iou"]})]
+        en = [("iou", 3, G3, {}), ("iou", 3, G3, {"iou": True, "stale_keys": ["iou"]}),
+              ("iou", 3, G3, {"iou": True, "stale_keys": ["iou"], "was_disabled": True})]
     else:
         specs = [("paint", 3, G3, a), ("paint", 2, G3D, a), ("UserAddEdge", 4, G3, a), ("UserDeleteNode", 4, G3, a),
                  ("UserSwapPredecessors", 4, G3, a), ("UserAddNode", 3, G3, a), ("paint", 2, G3, {"enable_mid": "iou"}),
                  ("UserDeleteEdge", 3, G3, {"enable_mid": "iou"}), ("UserAddEdge", 3, G3, {"enable_mid": "iou"})]
-        en = [("iou", 4, G3, {}), ("iou", 3, (4, 1, 2), {}), ("iou", 4, G3, {"iou": True, "stale_keys": ["iou"]})]
+        en = [("iou", 4, G3, {}), ("iou", 3, (4, 1, 2), {}), ("iou", 4, G3, {"iou": True, "stale_keys": ["iou"]}),
+              ("iou", 4, G3, {"iou": True, "stale_keys": ["iou"], "was_disabled": True})]
     from harness import kernels
     from .core import Run
 
@@ -428,7 +435,12 @@ def C09(tier, seed):
               dict(which="annotators", shape=(1, 3) if tier == "quick" else (2, 2), labels=2 if tier == "quick" else 3),
               kernels.ious_replay, ("kernel_ran",),
               "the real annotators._compute_ious on EVERY pair of label frames of the stated size (realised): pairs and "
-              "values equal |A&B| / |A|B| of the overlapping labels")]
+              "values equal |A&B| / |A|B| of the overlapping labels"),
+          Run("kernel:_compute_ious:uint8:large_labels", kernels.ious_harness,
+              dict(which="annotators", shape=(1, 2), dtype="uint8", label_set=[0, 16, 32, 255]),
+              kernels.ious_replay, ("kernel_ran",),
+              "uint8 frames of 2 cells with labels from {0, 16, 32, 255}: arithmetic on labels of a narrow dtype "
+              "wraps around (16*32 = 0 mod 256, 255+1 = 0)")]
     return _seg("C09", tier, seed, specs, en, extra_runs=kr)
 
 
@@ -443,9 +455,13 @@ def _export_runs(prop, tier, ops):
         c.update(cfg)
         if tier != "quick" and c.get("seg", True) and "shape" not in cfg:
             c["shape"] = (4, 1, 1) if c.get("op") == "csv" else (3, 1, 2)
+        fb = ("C16.graph_unchanged", "C16.attrs_unchanged", "C16.lookups_unchanged", "C16.history_unchanged",
+              "C16.registry_unchanged", "C16.scale_unchanged", "C16.segmentation_unchanged") if prop == "C16" else (
+            "C15.nodes_exact", "C15.edges_exact", "C15.no_missing_parent", "C15.segmentation_masks_exact")
         runs.append(Run(f"export:{name}:N={c['N']}", export.harness, c, export_replay.replay,
                         ("exported", "witness:chain_of_three") if c["N"] >= 3 else ("exported",), f"solution forest on <= {n} node slots (all shapes, symbolic times/ids), every "
-                        f"subset of its nodes as selection, label array with arbitrary non-negative symbolic labels"))
+                        f"subset of its nodes as selection, label array with arbitrary non-negative symbolic labels",
+                        fallback_obligations=fb))
     return runs
 
 
@@ -478,7 +494,11 @@ def C16(tier, seed):
            ("geff:noseg:per_axis_pos", dict(op="geff", seg=False, multi_pos=True)),
            ("csv", dict(op="csv")), ("csv:full:display", dict(op="csv", select=False, display_names=True)),
            ("csv:noseg:per_axis_pos:display", dict(op="csv", seg=False, multi_pos=True, display_names=True)),
-           ("csv:export_seg", dict(op="csv", export_seg=True)), ("save", dict(op="save", select=False)),
+           ("csv:export_seg", dict(op="csv", export_seg=True)),
+           # the label array already has the dtype the exporter would choose for the relabelled copy
+           ("csv:export_seg:uint8_array", dict(op="csv", export_seg=True, seg_dtype="uint8", N=2)),
+           ("geff:uint8_array", dict(op="geff", seg_dtype="uint8", N=2)),
+           ("save", dict(op="save", select=False)),
            ("save:noseg", dict(op="save", select=False, seg=False, scale="given")),
            ("queries", dict(op="queries", select=False)), ("queries:noseg", dict(op="queries", select=False, seg=False)),
            ("queries:noseg:per_axis_pos", dict(op="queries", select=False, seg=False, multi_pos=True)),
@@ -528,6 +548,11 @@ def C18(tier, seed):
                     kernels.ious_replay, ("kernel_ran",),
                     "the real candidate_graph.iou._compute_ious on EVERY pair of label frames of the stated size "
                     "(realised): pairs and values equal the definition"))
+    runs.append(Run("kernel:_compute_ious:uint8:large_labels", kernels.ious_harness,
+                    dict(which="candidate_graph", shape=(1, 2), dtype="uint8", label_set=[0, 16, 32, 255], prop="C18"),
+                    kernels.ious_replay, ("kernel_ran",),
+                    "uint8 frames of 2 cells with labels from {0, 16, 32, 255}: arithmetic on labels of a narrow "
+                    "dtype wraps around (16*32 = 0 mod 256, 255+1 = 0)"))
     if not q:
         runs.append(Run("points3d:M=3", candgraph.points_harness, dict(M=3, frames=3, dims=3),
                         candgraph.points_replay, ("built",), "3 detections in 3 frames, 3 spatial dimensions"))
@@ -627,6 +652,9 @@ def C10(tier, seed):
     en += [("area", 2, g2, {"stale_keys": ["area"], "scale": "sym"}),
            ("circularity", 2, g2, {"all_rp": True, "stale_keys": ["circularity"]}),
            ("iou", 3, g3, {"iou": True, "stale_keys": ["iou"]})]
+    # ... or the key was switched off earlier and its values went stale meanwhile
+    en += [("area", 2, g2, {"stale_keys": ["area"], "was_disabled": True, "scale": "sym"}),
+           ("iou", 3, g3, {"iou": True, "stale_keys": ["iou"], "was_disabled": True})]
     runs += R.enable_runs("C10", tier, en)
     return run_property("C10", tier, runs, explanation=R.EXPL, seed=seed,
                         assumptions=R.SEG_ASSUME + [
